@@ -67,7 +67,8 @@ Theorem accept_iff_grammar_refuted : ~ accept_iff_grammar_statement.
 Proof. exact accept_iff_grammar_refuted_proof. Qed.
 Print Assumptions accept_iff_grammar_refuted.
 
-(* "every rejection is a MalformedAtom" is false of the faithful model (uncaught IndexError) *)
-Theorem reject_is_malformed_refuted : ~ reject_is_malformed_statement.
-Proof. exact reject_is_malformed_refuted_proof. Qed.
-Print Assumptions reject_is_malformed_refuted.
+(* every rejection is a MalformedAtom, never another exception (holds since /repo 3aa9a5c) *)
+Theorem reject_is_malformed :
+  forall e s, features_of e <> None -> is_ok (parse_atom e false s) = false -> parse_atom e false s = Malformed.
+Proof. exact reject_is_malformed_proof. Qed.
+Print Assumptions reject_is_malformed.
